@@ -210,10 +210,11 @@ def _ensure_locked(config, force):
             os.remove(os.path.join(fdir, c + ".json"))
         except OSError:
             pass
-        try:
-            os.remove(os.path.join(fdir, c + ".pickle"))
-        except OSError:
-            pass
+        for ext in (".pickle", ".idx", ".bodies"):
+            try:
+                os.remove(os.path.join(fdir, c + ext))
+            except OSError:
+                pass
     _remove_fingerprints([EXPECTED[c] for c in stale])
 
     state = {"driver": driver, "tree": tree, "ok": False, "crates": {}, "config": config}
@@ -239,6 +240,9 @@ def _ensure_locked(config, force):
         state["crates"][c] = {"files": files, "files_hash": files_hash(files)}
     if tree_hash() != tree:
         raise BuildError("source tree changed while extracting facts")
+    # build the per-crate header index + lazily loadable body blobs while holding the lock
+    for c in EXPECTED:
+        load_crate(config, c)
     state["ok"] = True
     state["extracted_at"] = time.time()
     json.dump(state, open(state_path, "w"))
@@ -266,30 +270,99 @@ def _read_files_list(path):
     return out
 
 
+def _body_header(b):
+    """light summary of a body used to pre-filter without loading its MIR"""
+    callees, fnrefs, adts = set(), set(), set()
+
+    def scan_op(op):
+        if not isinstance(op, dict):
+            return
+        if op.get("k") == "fn":
+            fnrefs.add(op["fn"]["path"])
+            if op["fn"].get("res"):
+                fnrefs.add(op["fn"]["res"])
+        for a in op.get("fa", ()) or ():
+            if a:
+                adts.add(a)
+
+    for bl in b["blocks"]:
+        if bl.get("cleanup"):
+            continue
+        for st in bl.get("s", ()):
+            if st.get("k") == "assign":
+                scan_op(st["pl"])
+                rv = st["rv"]
+                for key in ("op", "a", "b", "pl"):
+                    if key in rv:
+                        scan_op(rv[key])
+                for o in rv.get("ops", ()):
+                    scan_op(o)
+                if rv.get("adt"):
+                    adts.add(rv["adt"])
+        t = bl["t"]
+        if t["k"] in ("call", "tailcall"):
+            f = t["f"]
+            if f.get("k") == "fn":
+                callees.add(f["fn"]["path"])
+                if f["fn"].get("res"):
+                    callees.add(f["fn"]["res"])
+            else:
+                scan_op(f)
+            for a in t.get("args", ()):
+                scan_op(a)
+            if t.get("dest"):
+                scan_op(t["dest"])
+    h = {k: b.get(k) for k in ("def", "unit", "kind", "file", "line", "end_line", "argc", "impl_self", "impl_trait")}
+    h["callees"] = frozenset(callees)
+    h["fnrefs"] = frozenset(fnrefs)
+    h["adts"] = frozenset(adts)
+    h["nblocks"] = len(b["blocks"])
+    return h
+
+
 def load_crate(config, crate):
-    """Load one crate's facts (pickle cache keyed by the json's mtime+size)."""
+    """Load one crate's facts as (meta, headers, blob_path): item tables + one light header per
+    body; the MIR of a body is unpickled lazily from blob_path[off:off+len]. Cached next to the
+    json, keyed by the json's mtime+size."""
     fdir = facts_dir(config)
     jp = os.path.join(fdir, crate + ".json")
-    pp = os.path.join(fdir, crate + ".pickle")
+    ip = os.path.join(fdir, crate + ".idx")
+    bp = os.path.join(fdir, crate + ".bodies")
     st = os.stat(jp)
-    key = (st.st_mtime_ns, st.st_size)
-    if os.path.exists(pp):
+    key = (st.st_mtime_ns, st.st_size, 2)
+    if os.path.exists(ip) and os.path.exists(bp):
         try:
-            with open(pp, "rb") as f:
-                k, data = pickle.load(f)
+            with open(ip, "rb") as f:
+                k, meta, headers = pickle.load(f)
             if k == key:
-                return data
+                return meta, headers, bp
         except Exception:
             pass
-    data = json.load(open(jp))
+    import gc
+    gc.disable()
     try:
-        tmp = pp + f".{os.getpid()}.tmp"
-        with open(tmp, "wb") as f:
-            pickle.dump((key, data), f, protocol=pickle.HIGHEST_PROTOCOL)
-        os.replace(tmp, pp)
-    except Exception:
-        pass
-    return data
+        data = json.load(open(jp))
+        headers = []
+        tmpb = bp + f".{os.getpid()}.tmp"
+        with open(tmpb, "wb") as bf:
+            off = 0
+            for b in data["bodies"]:
+                blob = pickle.dumps(b, protocol=pickle.HIGHEST_PROTOCOL)
+                h = _body_header(b)
+                h["off"] = off
+                h["len"] = len(blob)
+                bf.write(blob)
+                off += len(blob)
+                headers.append(h)
+        meta = {k: v for k, v in data.items() if k != "bodies"}
+        tmpi = ip + f".{os.getpid()}.tmp"
+        with open(tmpi, "wb") as f:
+            pickle.dump((key, meta, headers), f, protocol=pickle.HIGHEST_PROTOCOL)
+        os.replace(tmpb, bp)
+        os.replace(tmpi, ip)
+    finally:
+        gc.enable()
+    return meta, headers, bp
 
 
 if __name__ == "__main__":
